@@ -97,7 +97,7 @@ TraceModel ==
   /\ procs' = [p \in Pids |-> AbsentProc]
   /\ queue' = {} /\ spawn' = {}
   /\ budget' = MaxActions
-  /\ lastOut' = <<>> /\ lastRes' = "-"
+  /\ lastOut' = <<>> /\ lastRes' = "-" /\ lastAct' = NoAct
 
 TraceSkip ==     \* lines that carry no action
   /\ l <= Len(Log) /\ Log[l].ev \in {"end", "note"}
